@@ -50,6 +50,7 @@ from mashumaro.core.meta.helpers import (
     is_union,
     is_unpack,
     resolve_type_params,
+    substitute_type_params,
     type_name,
 )
 from mashumaro.core.meta.types.common import NoneType
@@ -661,7 +662,7 @@ def on_named_tuple(instance: Instance, ctx: Context) -> JSONSchema:
         instance.origin_type, get_args(instance.type)
     )[instance.origin_type]
     annotations = {
-        k: resolved.get(v, v)
+        k: substitute_type_params(v, resolved)
         for k, v in getattr(
             instance.origin_type, "__annotations__", {}
         ).items()
@@ -707,11 +708,13 @@ def on_typed_dict(instance: Instance, ctx: Context) -> JSONObjectSchema:
         instance.origin_type, get_args(instance.type)
     )[instance.origin_type]
     annotations = {
-        k: resolved.get(v, v)
+        k: substitute_type_params(v, resolved)
         for k, v in instance.origin_type.__annotations__.items()
     }
     all_keys = list(annotations.keys())
-    required_keys = getattr(instance.type, "__required_keys__", all_keys)
+    required_keys = getattr(
+        instance.origin_type, "__required_keys__", all_keys
+    )
     return JSONObjectSchema(
         properties={
             key: get_schema(instance.derive(type=annotations[key]), ctx)
